@@ -1,7 +1,7 @@
 """Per-property configuration of the driver: tiers, evidence texts, shrink hints."""
 
 COMPONENTS_COMMON = {
-    "real": ["gedcom, util, html, html/core packages of /repo's working tree (instrumented copy; upstream unit tests pass on it)",
+    "real": ["gedcom, util, html, html/core, q packages of /repo's working tree (instrumented copy; upstream unit tests pass on it)",
              "Go channels, WaitGroup, sync.Mutex, sync.Map, bufio", "Go race detector (fed only the program's own synchronisation)"],
     "simulated": ["goroutine scheduling (seeded serialising scheduler)", "select choice", "map and sync.Map iteration order",
                   "wall clock and timers (synctest fake clock)"],
@@ -141,7 +141,7 @@ PROPS = {
         },
         "probes_wanted": ["command=warnings", "command=publish", "command=diff", "command=query", "visibility=hide", "visibility=show", "visibility=placeholder"],
         "shrink_scalars": [_set(["publish", "jobs"], 1), _set(["compare", "jobs"], 1)],
-        "components": comp(["file system: simulated disk implementing core.FileWriter", "q (query engine): real, un-instrumented (no concurrency inside)"]),
+        "components": comp(["file system: simulated disk implementing core.FileWriter", "q (query engine): real, instrumented for map order only (no concurrency inside)"]),
         "assumptions": [
             "inputs and configurations are sampled by seed",
             "only the library work behind each command is run; cmd/gedcom glue is not",
@@ -241,7 +241,7 @@ PROPS = {
         "probes_wanted": ["cache_warmed_by_read", "op:node.delete", "op:node.setnodes", "op:doc.delete", "op:doc.setnodes", "op:ro.warnings", "op:ro.compare", "op:ro.publish",
                           "op:ro.comparenodes", "op:ro.deepcopy", "op:ro.filter", "op:ro.query", "op:ro.diffpage", "op:fam.sethusband.nil", "op:fam.addchild"],
         "shrink_lists": [["history", "ops"]],
-        "components": comp(["file system for the publish operation: simulated disk", "q (query engine): real, un-instrumented"]),
+        "components": comp(["file system for the publish operation: simulated disk", "q (query engine): real, instrumented for map order only"]),
         "assumptions": ["histories are sampled by seed, not enumerated",
                         "the reference model is a fresh decode of Document.String(); decoding itself is C01-C03's subject"],
     },
